@@ -126,7 +126,7 @@ class TlcResult:
 
 
 def tlc(module_path, cfg_path=None, workers=None, env=None, timeout=3600, simulate=None, depth=None,
-        xmx="8g", xss=None, deque=False, coverage=False, seed=None, name=None, extra=None, lib=None):
+        xmx="8g", xss="256m", deque=False, coverage=False, seed=None, name=None, extra=None, lib=None):
     """Run TLC; never raises on property violations (returns them), raises ToolError on tool failures."""
     name = name or os.path.splitext(os.path.basename(module_path))[0]
     meta = os.path.join(WORK, "tlc", name + "-" + str(os.getpid()))
@@ -312,3 +312,78 @@ def read_ndjson(path):
             if line:
                 out.append(json.loads(line))
     return out
+
+
+# ---------------------------------------------------------------- scenarios, traces, replays
+
+def run_scenario(ops, name):
+    """Execute a script of public-API ops on the real machine; returns (trace_path, summary)."""
+    os.makedirs(os.path.join(WORK, "traces"), exist_ok=True)
+    sp = os.path.join(WORK, "traces", name + ".script.ndjson")
+    tp = os.path.join(WORK, "traces", name + ".trace.ndjson")
+    write_ndjson(sp, ops)
+    summ = vh_json(["scenario", sp, tp], timeout=1800)
+    return tp, summ
+
+
+def validate_trace(trace_path, cfg="TraceMachine", timeout=1800, module=None):
+    """TLC trace validation; returns dict(accepted, reached, seq, op, states)."""
+    module = module or cfg
+    mp = os.path.join(SPEC, "trace", module + ".tla")
+    cp = os.path.join(SPEC, "trace", cfg + ".cfg")
+    r = tlc(mp, cp, workers=1, env={"TRACE": trace_path}, timeout=timeout, xmx="3g", xss="512m", deque=True,
+            name=cfg + "-" + os.path.basename(trace_path))
+    res = {"accepted": False, "reached": None, "seq": None, "op": None, "states": r.distinct, "violated": r.violated,
+           "out_tail": r.out[-1500:]}
+    m = re.search(r'<<"REJECTED", (-?\d+), (-?\d+), "([^"]*)">>', r.out)
+    if m:
+        res.update(reached=int(m.group(1)), seq=int(m.group(2)), op=m.group(3))
+    elif r.ok:
+        res["accepted"] = True
+    return res
+
+
+def validate_traces(paths, cfg="TraceMachine", jobs=None, timeout=1800):
+    from concurrent.futures import ThreadPoolExecutor
+    jobs = jobs or max(1, NCPU // 2)
+    with ThreadPoolExecutor(max_workers=jobs) as ex:
+        return list(ex.map(lambda p: validate_trace(p, cfg=cfg, timeout=timeout), paths))
+
+
+def event_at(trace_path, idx):
+    """1-based event of an NDJSON trace (with its predecessor) for replay files."""
+    prev = cur = None
+    with open(trace_path) as f:
+        for i, line in enumerate(f, 1):
+            if i == idx - 1:
+                prev = json.loads(line)
+            if i == idx:
+                cur = json.loads(line)
+                break
+    for e in (prev, cur):
+        if e and "s" in e and "ram" in e["s"]:
+            e["s"] = dict(e["s"])
+            e["s"]["ram"] = "<240 bytes omitted>"
+    return {"event_index": idx, "previous": prev, "event": cur}
+
+
+_REPLAY_RE = re.compile(r'^<<"REPLAY", "(.*)">>$')
+
+
+def tlc_replay_lines(out):
+    """Behaviours printed by TLC as <<"REPLAY", ToJson(..)>> -> list of python objects."""
+    res = []
+    for line in out.splitlines():
+        m = _REPLAY_RE.match(line)
+        if m:
+            s = m.group(1).replace('\\"', '"').replace("\\\\", "\\")
+            res.append(json.loads(s))
+    return res
+
+
+def replay_cases(cases, name):
+    """S->I: run TLC-enumerated behaviours on the real machine, compare expected projections."""
+    os.makedirs(os.path.join(WORK, "replay"), exist_ok=True)
+    p = os.path.join(WORK, "replay", name + ".ndjson")
+    write_ndjson(p, cases)
+    return vh_json(["replay", p], timeout=3600)
